@@ -307,7 +307,10 @@ class OrthoXML_manager(object):
 
         def _visit(hog, parent):
 
-            if len(hog.children) == 1:
+            # a group can only be left out when its content is written into an enclosing orthologGroup
+            can_elide = parent.tag == "orthologGroup"
+
+            if len(hog.children) == 1 and can_elide:
                 current_hog_xml = parent
 
             elif len(hog.duplications) >= 1:
@@ -319,7 +322,7 @@ class OrthoXML_manager(object):
 
                 remaining_hog = list(set(hog.children) - set(dup_child))
 
-                if len(remaining_hog) == 0 and len(hog.duplications) == 1  :
+                if len(remaining_hog) == 0 and len(hog.duplications) == 1 and can_elide:
 
                     current_hog_xml = parent
 
